@@ -350,7 +350,7 @@ fn gen_scn(rng: &mut Rng, _tier: Tier) -> ByteScn {
             6..=8 => rng.usize_in(13, 40),
             _ => {
                 if rng.chance(1, 6) {
-                    if rng.chance(1, 8) {
+                    if rng.chance(1, 3) {
                         // long lists (caps, chunked paths, index types): fault positions sampled, see `LONG_INPUT`
                         *rng.pick(&[513usize, 600, 1025, 1100, 1536, 2000, 4000])
                     } else {
